@@ -104,7 +104,8 @@ fn run_read<Zx: Z>(file: &[u8], bufsize: u32, ops: &[R]) -> Result<Vec<Ob>, Stri
         let mut obs = vec![];
         let r = Zx::gzbuffer(f, bufsize);
         obs.push(Ob { ret: r as i64, bytes: vec![] });
-        let mut buf = vec![0xEEu8; 4096];
+        let want = ops.iter().map(|o| if let R::Read(n) = o { *n } else { 0 }).max().unwrap_or(0).max(4096);
+        let mut buf = vec![0xEEu8; want];
         for op in ops {
             let o = match *op {
                 R::Read(n) => {
@@ -665,8 +666,61 @@ fn path_opens(ctx: &mut Ctx) {
     let _ = std::fs::remove_dir_all(&dir);
 }
 
+/// files several windows long (a 20000-byte block repeated: every later match reaches across what earlier gzread
+/// calls left in the decoder's window), realistic buffer sizes, reads from 100 bytes to 1 MiB interleaved with seeks
+fn read_large(ctx: &mut Ctx) {
+    let quick = ctx.quick();
+    // printable noise with a line break now and then (gzgets returns C strings: no NUL bytes in the data)
+    let block: Vec<u8> = lcg_bytes(77, 20000).into_iter().enumerate().map(|(i, b)| if i % 71 == 70 { b'\n' } else { 0x21 + b % 90 }).collect();
+    let mut logical: Vec<u8> = vec![];
+    for i in 0..10u8 {
+        logical.extend_from_slice(&block);
+        logical.push(b'0' + i);
+    }
+    let one = gz_member(&logical, 6, None);
+    let mut two = gz_member(&logical[..70000], 1, None);
+    two.extend_from_slice(&gz_member(&logical[70000..], 9, None));
+    let files = [("one member of 200 KB", one), ("two members, 70 KB + 130 KB", two)];
+    let alpha = [R::Read(100), R::Read(20000), R::Read(70000), R::Read(1 << 20), R::Getc, R::Gets(40), R::SeekCur(50000), R::SeekSet(10), R::SeekSet(150000), R::Rewind];
+    for (fname, bytes) in &files {
+        for bufsize in [8192u32, 16384, 100, 131072] {
+            sequences(&alpha, if quick { 3 } else { 4 }, |ops| {
+                ctx.case(
+                    "gz-read-large",
+                    || format!("file[{fname}] ({} bytes) gzbuffer({bufsize}) ; {ops:?}", bytes.len()),
+                    |c| {
+                        c.exec();
+                        let a = run_read::<Rs>(bytes, bufsize, ops)?;
+                        let mut m = R5 { data: logical.clone(), pos: 0, pushed: vec![] };
+                        for (k, op) in ops.iter().enumerate() {
+                            let got = &a[k + 1];
+                            let Some((ret, want)) = r5_step(&mut m, *op) else { continue };
+                            if got.ret != ret || (matches!(op, R::Read(_) | R::Gets(_)) && got.bytes != want) {
+                                return Err(format!("op {k} {op:?}: zlib-rs returned {} ({} bytes, first difference at {:?}); the logical stream gives {} ({} bytes)", got.ret, got.bytes.len(), got.bytes.iter().zip(&want).position(|(x, y)| x != y), ret, want.len()));
+                            }
+                        }
+                        c.exec();
+                        let b = run_read::<Ng>(bytes, bufsize, ops)?;
+                        if a != b {
+                            let k = a.iter().zip(&b).position(|(x, y)| x != y).unwrap_or(a.len().min(b.len()));
+                            return Err(format!("observation {k} differs from zlib-ng: zlib-rs {:?} ({} bytes), zlib-ng {:?} ({} bytes)", a.get(k).map(|o| o.ret), a.get(k).map_or(0, |o| o.bytes.len()), b.get(k).map(|o| o.ret), b.get(k).map_or(0, |o| o.bytes.len())));
+                        }
+                        c.outcome(a.iter().fold(bufsize as u64, |h, o| mix(h, mix(o.ret as u64, hash_bytes(&o.bytes)))));
+                        if !ops.is_empty() {
+                            c.nontrivial();
+                        }
+                        c.validated();
+                        Ok(())
+                    },
+                );
+            });
+        }
+    }
+}
+
 pub fn run(ctx: &mut Ctx) {
     read_side(ctx);
+    read_large(ctx);
     write_side(ctx);
     path_opens(ctx);
 }
